@@ -1,4 +1,5 @@
 import Goflow.Pipe
+import Goflow.Generated.Pool
 /-!
   C06 — Templates are scoped per exporter, version, domain and id; latest wins.
   The store of one exporter refines an abstract map keyed by (version, domain, id); the pipe keeps
@@ -133,5 +134,11 @@ theorem exporter_isolation (cfg : Producer.Config) (st : Pipe.State) (e e' : Pip
 /-- non-vacuity: concrete keys of two versions / domains / ids are all different -/
 example : templateKey 9 1 256 ≠ templateKey 10 1 256 ∧ templateKey 9 1 256 ≠ templateKey 9 2 256 ∧
     templateKey 9 1 256 ≠ templateKey 9 1 257 := by decide
+
+/-- the key function of the template store in the source now is the one `templateKey` models (each operand widened to
+    64 bits before it is shifted: version above bit 48, the whole 32-bit domain above bit 16, the id below) — regenerated -/
+theorem templateKey_source :
+    Goflow.Generated.templateKeyBody = "return (uint64(version) << 48) | (uint64(obsDomainId) << 16) | uint64(templateId)" := by
+  decide +kernel
 
 end Goflow.C06
